@@ -229,28 +229,9 @@ def check(ctx):
                 if k:
                     flows += k
                     funcs_with_flow.add(fi.id)
-    # the vectorised struct block of the generated code
-    tflows = 0
-    for t in repo.templates():
-        if t.tree is None:
-            ctx.undecided('R4-strict-decode', t.func, 'template at line %d' % t.lineno, 'template does not parse with holes: %s' % t.error, t.lineno)
-            continue
-        ctx.unit('templates')
-        for n in ast.walk(t.tree):
-            if isinstance(n, ast.Assign) and raw_slices(n.value):
-                sites += len(raw_slices(n.value))
-                tflows += 1
-                construct = stmt_text(n)
-                call = n.value
-                direct = isinstance(call, ast.Call) and len(call.args) == 2 and call.args[1] in raw_slices(call)
-                if direct and isinstance(call.func, ast.Name) and call.func.id == 'StructUnpack' \
-                        and template_binds_struct_unpack(repo):
-                    ctx.holds('R4-strict-decode', t.func, construct, 'generated block decodes with struct.unpack (strict)', t.lineno, clause='i')
-                elif direct and call_name(call) in ('struct.unpack',):
-                    ctx.holds('R4-strict-decode', t.func, construct, 'generated block decodes with struct.unpack (strict)', t.lineno, clause='i')
-                else:
-                    ctx.violation('R4-strict-decode', t.func, construct,
-                                  'generated block decodes a raw slice with something other than struct.unpack and no length guard', t.lineno)
+    # the blocks of the generated code
+    tflows, tsites = check_templates_decode(ctx)
+    sites += tsites
     ctx.unit('raw_read_sites', sites)
     ctx.unit('stored_value_flows', flows + tflows)
     ctx.floor('unpack strategies analysed', len(seen_funcs), 14)
@@ -263,6 +244,39 @@ def check(ctx):
 
     from .c12 import check_wrappers
     check_wrappers(ctx, only_unpack=True)
+
+
+def check_templates_decode(ctx, rule='R4-strict-decode'):
+    """every block template of the generated code that decodes input bytes does it with
+    struct.unpack of the slice itself (strict) -- returns (flows, raw read sites)"""
+    repo = ctx.repo
+    tflows = sites = 0
+    for t in repo.templates():
+        if t.tree is None:
+            ctx.undecided(rule, t.func, 'template at line %d' % t.lineno, 'template does not parse with holes: %s' % t.error, t.lineno)
+            continue
+        ctx.unit('templates')
+        for n in ast.walk(t.tree):
+            if isinstance(n, ast.Assign) and raw_slices(n.value):
+                sites += len(raw_slices(n.value))
+                tflows += 1
+                construct = stmt_text(n)
+                call = n.value
+                direct = isinstance(call, ast.Call) and len(call.args) == 2 and call.args[1] in raw_slices(call)
+                if direct and isinstance(call.func, ast.Name) and call.func.id == 'StructUnpack' \
+                        and template_binds_struct_unpack(repo):
+                    ctx.holds(rule, t.func, construct, 'generated block decodes with struct.unpack (strict)', t.lineno, clause='i')
+                elif direct and call_name(call) in ('struct.unpack',):
+                    ctx.holds(rule, t.func, construct, 'generated block decodes with struct.unpack (strict)', t.lineno, clause='i')
+                else:
+                    # a length guard in the same block?
+                    guard = any(isinstance(x, ast.If) and 'len(' in unparse(x.test) and any(isinstance(y, ast.Raise) for y in ast.walk(x)) for x in ast.walk(t.tree))
+                    if guard:
+                        ctx.holds(rule, t.func, construct, 'generated block checks the slice length before storing', t.lineno, clause='ii')
+                    else:
+                        ctx.violation(rule, t.func, construct,
+                                      'generated block decodes a raw slice with something other than struct.unpack and no length guard', t.lineno)
+    return tflows, sites
 
 
 def check_no_length_tolerance(ctx, funcs):
@@ -292,9 +306,25 @@ def check_no_length_tolerance(ctx, funcs):
                 st = '%s: %s' % (fi.qual, stmt_text(par.get(id(x), x))[:120])
                 if any("b'$'" in t and 'pattern' in t for t in tests):
                     ctx.holds(rule, fi, st, 'len(raw) only under the end-of-string marker (read-to-end field)', x.lineno, clause='iv')
+                elif _rejecting(par, x):
+                    ctx.holds(rule, fi, st, 'bounds check: len(raw) only decides whether to raise', x.lineno, clause='iv')
                 else:
                     ctx.violation(rule, fi, st, 'the length of the input steers parsing: an input cut inside this field parses to a shortened / absent value instead of failing', x.lineno, clause='iv')
     ctx.unit('len_raw_sites', n)
+
+
+def _rejecting(par, node):
+    cur = node
+    while id(cur) in par:
+        p = par[id(cur)]
+        if isinstance(p, ast.Assert) and cur is p.test:
+            return True
+        if isinstance(p, ast.If) and cur is p.test:
+            return all(isinstance(s, ast.Raise) for s in p.body) and not p.orelse
+        if isinstance(p, ast.stmt):
+            return False
+        cur = p
+    return False
 
 
 def template_binds_struct_unpack(repo):
